@@ -97,7 +97,7 @@ Theorem C15_setfloat64_exact_refuted :
 Proof. exact SetFloat64_exact_refuted. Qed.
 Print Assumptions C15_setfloat64_exact_refuted.
 
-(* non-vacuity: 0.1 at 17 digits and at full precision, 2^60 exactly, round trip *)
+(* non-vacuity: 0.1 at 17 digits and at full precision (exact; Float64 returns 0.1 again), 2^60 exactly *)
 Example C15_model_examples :
   let z17 := mkDec nil 0 0 ToNearestEven Exact Fzero false in
   let z60 := mkDec nil 0 60 ToNearestEven Exact Fzero false in
@@ -107,7 +107,7 @@ Example C15_model_examples :
   prec (get (SetFloat64 z17 tenth)) = 17 /\ exp (get (SetFloat64 z17 tenth)) = 0 /\
   mant (get (SetFloat64 z17 tenth)) = (1000000000000000100 :: nil)%list /\ acc (get (SetFloat64 z17 tenth)) = Above /\
   acc (get (SetFloat64 z60 tenth)) = Exact /\ dform (get (SetFloat64 z60 tenth)) = Ffinite /\
-  Float64 (get (SetFloat64 z60 tenth)) = Some (fl_of_bits binary64 tenth, Exact) /\
-  acc (get (SetFloat64 z60 5296233161787703296)) = Exact /\ exp (get (SetFloat64 z60 5296233161787703296)) = 19 /\
-  mant (get (SetFloat64 z60 5296233161787703296)) = (1152921504606846976 :: nil)%list.
+  Float64 (get (SetFloat64 z60 tenth)) = Some (fl_of_bits binary64 tenth, Below) /\   (* K2: the value comes back, the accuracy does not *)
+  acc (get (SetFloat64 z60 4877398396442247168)) = Exact /\ exp (get (SetFloat64 z60 4877398396442247168)) = 19 /\
+  mant (get (SetFloat64 z60 4877398396442247168)) = (0 :: 1152921504606846976 :: nil)%list.
 Proof. vm_compute. repeat split. Qed.
